@@ -289,7 +289,7 @@ def step(history):
         lastk = ":".join(last.split(":")[:2]) if last.startswith(("rm", "append")) else last.split(":")[0]
         # the observers themselves must work in every reachable state
         try:
-            net.species, net.find_source_sink(), net.where_species("H"), net.elements
+            net.species, net.find_source_sink(), net.where_species("H"), net.elements, net.grains, net.grain_groups
         except HarnessError:
             raise
         except Exception as e:
@@ -354,7 +354,7 @@ def step(history):
                 net2 = Network()
                 for op in history:
                     apply_real(net2, op)
-                    net2.species, net2.elements, net2.find_source_sink(), net2.where_species("H"), net2.find_duplicate_reaction()
+                    net2.species, net2.elements, net2.find_source_sink(), net2.where_species("H"), net2.find_duplicate_reaction(), net2.grains, net2.grain_groups
                     [s.alias for s in net2.species]
                 obs2 = ([(rid_of(r), r.idxfromfile) for r in net2.reaction_list], sorted(s.name for s in net2.species), [sorted(x.name for x in part) for part in net2.find_source_sink()])
                 obs1 = (got_held, got_sp, [gsrc, gsnk])
